@@ -928,6 +928,8 @@ package spec
 //@   loop 0 invariant forall l *schemaLoader :: allocated(l) ==> l.root == old(l.root) && l.options == old(l.options) && l.cache == old(l.cache) && l.context == old(l.context)
 //@   loop 0 invariant strElemsKept(parentRefs)
 
+// the scope a schema's own $ref is read in: its id when it has one, else the scope it is met in
+//@ define scopeOf(id string, basePath string) string = id != "" ? normURI((hasSuffix(id, "/") ? id + "placeholder.json" : id), basePath) : basePath
 //@ func expandSchema
 //@   strings  uninterpreted
 //@   property C04, C08, C03, C18
@@ -943,6 +945,8 @@ package spec
 //@   ensures  [C03] memo-monotone @@ forall k string :: old(has(resolver.context.circulars, k)) ==> has(resolver.context.circulars, k)
 //@   ensures  loaders-immutable @@ forall l *schemaLoader :: allocated(l) ==> l.root == old(l.root) && l.options == old(l.options) && l.cache == old(l.cache) && l.context == old(l.context)
 //@   ensures  string-elements-kept @@ strElemsKept(parentRefs)
+//@   ensures  [C09] skip-schemas-rebases-in-scope @@ old(resolver.options.SkipSchemas) && old(refStringV(target.Ref)) != "" && result1 == nil ==>
+//@               refStringV(result0.Ref) == denormStr(canonStr(normURI(old(refStringV(target.Ref)), scopeOf(target.ID, basePath))), resolver.context.basePath, resolver.context.rootID)
 //@   ensures  stack-kept @@ forall i int :: 0 <= i && i < len(parentRefs) ==> parentRefs[i] == old(parentRefs[i])
 //@   loop 0 invariant runInv(resolver, old(resolver.options), old(resolver.cache), old(resolver.context), old(resolver.options.ContinueOnError), old(resolver.options.SkipSchemas), old(resolver.options.AbsoluteCircularRef), old(failures))
 //@   loop 0 invariant forall u string :: old(cacheDom[u]) ==> cacheDom[u]
@@ -1013,10 +1017,13 @@ package spec
 //@            && result.referenceURL.Path == dedupSlashes(urlPath(normURI(refString(ref), relativeBase))) && result.referenceURL.RawQuery == urlQuery(normURI(refString(ref), relativeBase))
 //@            && result.referenceURL.Fragment == urlFrag(normURI(refString(ref), relativeBase))
 
+// the string of the reference denormalizeRef returns is a function of the canonical ref, the root location and the root id
+//@ specfn denormStr(string, string, string) string
 //@ func denormalizeRef
 //@   property C02, C03, C09
 //@   requires ref != nil && urlOK(originalRelativeBase)
 //@   assigns  nothing
+//@   defines  refStringV(result) == denormStr(refString(ref), originalRelativeBase, id)
 //@   ensures  true
 
 // ---- parameters, responses, path items, operations
